@@ -174,10 +174,24 @@ func (r *assignRun) runBase(c assignCase) (ok bool) {
 	if len(c.Live) >= 2 && (c.Shards >= 2 || c.RF >= 2) {
 		r.rep.DistinctNontrivial++
 	}
-	r.rep.Sample(map[string]interface{}{"case": c, "assignment": after.String()})
+	if len(r.rep.Samples) < 3 && len(c.Live) >= 3 && c.Shards >= 4 && c.RF >= 2 && c.Sel.Fixed < 0 {
+		r.rep.Sample(map[string]interface{}{"case": c, "assignment": after.String()})
+	}
 	return true
 }
 
+// cloneAssignment rebuilds an assignment through the exported API only.
+func cloneAssignment(m shardMap, n int) *models.ShardAssignment {
+	a := models.NewShardAssignment("db")
+	for id := 0; id < n; id++ {
+		for _, node := range m[id] {
+			a.AddReplica(models.ShardID(id), models.NodeID(node))
+		}
+	}
+	return a
+}
+
+// runGrow: base != nil is the (already checked) result of the base case, given as shard map; nil = recompute it.
 func (r *assignRun) runGrow(c assignCase, want shardMap) {
 	defer func() {
 		if p := recover(); p != nil {
@@ -185,13 +199,16 @@ func (r *assignRun) runGrow(c assignCase, want shardMap) {
 		}
 	}()
 	r.rep.Evaluations++
-	a, err := r.base(c)
-	if err != nil {
-		vevid.Fatal("base assignment of a growth case failed: %v (%+v)", err, c)
-	}
-	before := toShardMap(a)
-	if want != nil && before.String() != want.String() {
-		vevid.Fatal("un-owned randomness: the same seed produced %v and %v (%+v)", want, before, c)
+	var a *models.ShardAssignment
+	var err error
+	before := want
+	if want != nil {
+		a = cloneAssignment(want, c.Shards)
+	} else {
+		if a, err = r.base(c); err != nil {
+			vevid.Fatal("base assignment of a growth case failed: %v (%+v)", err, c)
+		}
+		before = toShardMap(a)
 	}
 	g := c.Grow
 	cfg := &models.Database{Name: "db", NumOfShard: g.To, ReplicaFactor: c.RF}
@@ -215,7 +232,7 @@ func (r *assignRun) runGrow(c assignCase, want shardMap) {
 	if len(g.Live) >= 2 {
 		r.rep.DistinctNontrivial++
 	}
-	if g.To-c.Shards >= 2 && len(g.Live) >= 3 && c.RF >= 2 && !sameList(g.Live, c.Live) {
+	if len(r.rep.Samples) < 6 && g.To-c.Shards >= 2 && len(g.Live) >= 3 && c.RF >= 2 && !sameList(g.Live, c.Live) && g.Sel.Fixed < 0 {
 		r.rep.Sample(map[string]interface{}{"case": c, "before": before.String(), "after": after.String()})
 	}
 }
@@ -226,7 +243,7 @@ func runAssign(f *vevid.Flags, rep *vevid.Report) {
 	subsets := subsetsOf(universe)
 	rep.Rule = "every non-empty live set of a 5-node universe x shards 1..8 x replica factor 1..nodes+1 x every start selector " +
 		"(fixedStartIndex 0..n-1, and -1 with the two rand.Intn draws owned through a seed table realising every (start, shift) in n x n) " +
-		"x startShardID {-1, 0}; every successful assignment x every larger shard count <= 8 x every live set at growth time x every start selector " +
+		"x startShardID {-1, 0}; every successful assignment (quick tier: those created with a fixed start index) x every larger shard count <= 8 x every live set at growth time x every start selector " +
 		"through ModifyShardAssignment. non-trivial = >=2 nodes and (>=2 shards or rf>=2) for creation, >=2 nodes at growth time for growth; " +
 		"cases are distinct by construction (distinct parameter tuples)"
 	rep.Bounds["universe_nodes"] = len(universe)
@@ -258,8 +275,15 @@ func runAssign(f *vevid.Flags, rep *vevid.Report) {
 						if !r.runBase(c) || ss == 0 {
 							continue // growth is driven from the startShardID=-1 variant (identical assignment)
 						}
-						a, _ := r.base(c)
-						want := toShardMap(a)
+						if !f.Thorough() && sel.Fixed < 0 {
+							continue // quick: growth steps start from the n fixed-start assignments of each (live, shards, rf)
+						}
+						a1, _ := r.base(c)
+						a2, _ := r.base(c)
+						want := toShardMap(a1)
+						if got := toShardMap(a2); got.String() != want.String() {
+							vevid.Fatal("un-owned randomness: the same seed produced %v and %v (%+v)", want, got, c)
+						}
 						for to := shards + 1; to <= maxShards; to++ {
 							for _, glive := range subsets {
 								for _, gsel := range selectors(len(glive)) {
